@@ -70,9 +70,31 @@ def denoteRules (db : DB) (rs : List Rule) : List Row := rs.flatMap (denote db)
 
 /-! ### SQL -/
 
+inductive ArithOp
+  | add | sub | mul
+  deriving Repr, DecidableEq
+
+inductive CmpOp
+  | lt | le | gt | ge | ne | eq
+  deriving Repr, DecidableEq
+
+def ArithOp.eval : ArithOp → Val → Val → Val
+  | .add, a, b => a + b
+  | .sub, a, b => a - b
+  | .mul, a, b => a * b
+
+def CmpOp.holds : CmpOp → Val → Val → Bool
+  | .lt, a, b => decide (a < b)
+  | .le, a, b => decide (a ≤ b)
+  | .gt, a, b => decide (a > b)
+  | .ge, a, b => decide (a ≥ b)
+  | .ne, a, b => a != b
+  | .eq, a, b => a == b
+
 inductive SExpr
   | col (t c : Nat)       -- t_<t>.col<c>
   | const (v : Val)
+  | bin (op : ArithOp) (a b : SExpr)   -- ((a) op (b))
   deriving Repr, DecidableEq
 
 structure Select where
@@ -89,6 +111,7 @@ def valAt (cand : Cand) (t c : Nat) : Val := (cand.getD t []).getD c 0
 def evalS (cand : Cand) : SExpr → Val
   | .col t c => valAt cand t c
   | .const v => v
+  | .bin op a b => op.eval (evalS cand a) (evalS cand b)
 
 def product : List (List Row) → List Cand
   | [] => [[]]
@@ -171,5 +194,58 @@ def evalGroupBy (db : DB) (n : Nat) (op : AggOp) (qs : List Select) : List Row :
 
 /-- the documented meaning: aggregate over all solutions of all rules with equal key values -/
 def denoteDistinct (db : DB) (n : Nat) (op : AggOp) (rs : List Rule) : List Row := groupAgg n op (denoteRules db rs)
+
+end Logica.CQ
+
+namespace Logica.CQ
+
+/-! ### arithmetic in heads and comparisons in bodies -/
+
+inductive Expr
+  | term (t : Term)
+  | bin (op : ArithOp) (a b : Expr)
+  deriving Repr
+
+structure XRule where
+  head : List Expr
+  body : List Atom
+  tests : List (CmpOp × Expr × Expr)
+  deriving Repr
+
+def evalE (env : Env) : Expr → Val
+  | .term t => evalTerm env t
+  | .bin op a b => op.eval (evalE env a) (evalE env b)
+
+def testsHoldEnv (env : Env) (ts : List (CmpOp × Expr × Expr)) : Bool :=
+  ts.all fun t => t.1.holds (evalE env t.2.1) (evalE env t.2.2)
+
+/-- solutions of the atoms that pass every comparison, projected by the head -/
+def xdenote (db : DB) (r : XRule) : List Row :=
+  ((solve db r.body []).filter (fun env => testsHoldEnv env r.tests)).map (fun env => r.head.map (evalE env))
+
+structure XSelect where
+  tables : List String
+  tests : List (CmpOp × SExpr × SExpr)       -- comparisons of the body, first in the WHERE clause
+  conds : List (SExpr × SExpr)                -- equalities from the atoms
+  sel : List SExpr
+  deriving Repr
+
+def testsHold (ts : List (CmpOp × SExpr × SExpr)) (cand : Cand) : Bool :=
+  ts.all fun t => t.1.holds (evalS cand t.2.1) (evalS cand t.2.2)
+
+def evalXSelect (db : DB) (q : XSelect) : List Row :=
+  ((product (q.tables.map db)).filter (fun c => condsHold q.conds c && testsHold q.tests c)).map
+    (fun cand => q.sel.map (evalS cand))
+
+def compileE (vm : VMap) : Expr → SExpr
+  | .term t => compileTerm vm t
+  | .bin op a b => .bin op (compileE vm a) (compileE vm b)
+
+def xcompile (r : XRule) : XSelect :=
+  let st := compileAtoms r.body 0 ⟨[], []⟩
+  { tables := r.body.map (·.pred),
+    tests := r.tests.map (fun t => (t.1, compileE st.vmap t.2.1, compileE st.vmap t.2.2)),
+    conds := st.conds,
+    sel := r.head.map (compileE st.vmap) }
 
 end Logica.CQ
